@@ -404,3 +404,24 @@ def run_case(c):
     o = Obs()
     run_history(c, o)
     return o
+
+
+# ---------------------------------------------------------------------------------------------- suite workload
+# second workload source: the repository's own tests run under the monitor plugin (oasverif/plugin.py, oasverif/monitors.py);
+# only the monitors that serve this property decide here
+_cases_generated = cases
+_run_case_generated = run_case
+
+
+def cases(tier, seed):
+    return _cases_generated(tier, seed) + [dict(kind="suite", tier=tier, _cost=200)]
+
+
+def run_case(c):
+    if c["kind"] != "suite":
+        return _run_case_generated(c)
+    from .. import suite
+
+    o = Obs()
+    suite.observe(o, "C03", c.get("tier", "quick"), guard=True)
+    return o
